@@ -68,9 +68,10 @@ type vsConc struct {
 	DType    int   `json:"dtype"`    // 0: int64, 1: float32, 2: uint8, 3: float64
 	VType    int   `json:"vtype"`    // 0: string, 1: json, 2: bytes
 	FileCap  int64 `json:"filecap"`  // 0: default 1 GB; else bytes
-	Persist  int   `json:"persist"`  // 0: always persist index on auto commit, 1: default lazy (1 s)
+	Persist  int   `json:"persist"`  // 0: always persist index on auto commit, 1: default lazy (1 s), 2: 30us interval
 	GCThresh int   `json:"gcthresh"` // 0: tiny (always collect), 1: default
-	Iter     int   `json:"iter"`     // 0: DB.Read, 1: explicit iterator with small auto span
+	Iter     int   `json:"iter"`     // 0: DB.Read, 1: explicit iterator, fixed spans, 2: auto span
+	NoEmpty  bool  `json:"noempty"`  // never use zero-length variable samples (crash oracle needs identities)
 }
 
 func vsConcFromSeed(seed int64, i int) vsConc {
@@ -78,7 +79,7 @@ func vsConcFromSeed(seed int64, i int) vsConc {
 	x ^= x >> 31
 	n := func(k uint64) int { x = x*6364136223846793005 + 1442695040888963407; return int((x >> 33) % k) }
 	caps := []int64{0, 64, 40, 17, 200}
-	return vsConc{TSMap: n(3), DType: n(4), VType: n(3), FileCap: caps[n(5)], Persist: n(2), GCThresh: n(2), Iter: 0}
+	return vsConc{TSMap: n(3), DType: n(4), VType: n(3), FileCap: caps[n(5)], Persist: n(3), GCThresh: n(2), Iter: 0}
 }
 
 // ts maps abstract time (even = sample slots, odd = points between) to timestamps.
@@ -161,6 +162,11 @@ func (c vsConc) vVal(t, id int) []byte {
 	switch c.VType {
 	case 1:
 		return []byte(fmt.Sprintf(`{"i":%d,"t":%d,"p":"%s"}`, id, t, pad))
+	}
+	// string / bytes channels also carry EMPTY samples (zero-length records): every
+	// sample whose (t/2 + id) is a multiple of 3.
+	if !c.NoEmpty && (t/2+id)%3 == 0 {
+		return []byte{}
 	}
 	return []byte(fmt.Sprintf("v%d_%d%s", id, t, pad))
 }
@@ -256,6 +262,9 @@ func (r *vsRunner) exec(st vsStep) (string, error) {
 		}
 		if r.c.Persist == 0 {
 			cfg.AutoIndexPersistInterval = AlwaysIndexPersistOnAutoCommit
+		} else if r.c.Persist == 2 {
+			// some auto-commits persist the index, some do not, depending on wall-clock
+			cfg.AutoIndexPersistInterval = 30 * telem.Microsecond
 		}
 		w, err := r.db.OpenWriter(ctx, cfg)
 		if err != nil {
